@@ -1106,6 +1106,242 @@ theorem accepted_perm (P Q Q' : Bytes) (hP : 63 ∉ P) (h : (pieces 38 Q).Perm (
       simp only [scanQuery_of_valid (fun b hb => queryClass_sanitize (x := Q') hb)]
       rfl
 
+/-! ### exactly which URLs `PathAndQuery` accepts after sanitising -/
+
+theorem splitFirst_rebuild (c : Nat) (u : Bytes) :
+    u = (splitFirst c u).1 ++ (match (splitFirst c u).2 with | none => [] | some q => c :: q) := by
+  induction u with
+  | nil => simp [splitFirst]
+  | cons b r ih =>
+    by_cases hb : b = c
+    · simp [splitFirst, hb]
+    · simp only [splitFirst, beq_iff_eq, hb, if_false, List.cons_append]
+      rw [← ih]
+
+theorem pathClass_of_escape :
+    ∀ b, b < 128 → (b = 37 ∨ (48 ≤ b ∧ b ≤ 57) ∨ (65 ≤ b ∧ b ≤ 70)) → pathClass b = .valid := by
+  decide
+
+theorem pathClass_of_not_encoded :
+    ∀ b, b < 128 → shouldEncode urlSet b = false → b ≠ 63 → b ≠ 96 → pathClass b = .valid := by
+  decide
+
+theorem pathClass_96 : pathClass 96 = .invalid := by decide
+theorem shouldEncode_urlSet_96 : shouldEncode urlSet 96 = false := by decide
+
+theorem pathClass_sanitize {x : Bytes} (h63 : 63 ∉ x) (h96 : 96 ∉ x) {b : Nat} (h : b ∈ sanitize x) :
+    pathClass b = .valid := by
+  rcases mem_pctEncode_cases h with h | ⟨hm, h⟩
+  · exact pathClass_of_escape b (by omega) h
+  · exact pathClass_of_not_encoded b (shouldEncode_false_lt h) h
+      (fun e => h63 (e ▸ hm)) (fun e => h96 (e ▸ hm))
+
+theorem scanPath_of_valid_query {a : Bytes} (h : ∀ b ∈ a, pathClass b = .valid) (r : Bytes) :
+    scanPath (a ++ 63 :: r) = some (a, some r) := by
+  induction a with
+  | nil => simp [scanPath, pathClass_63]
+  | cons b a ih =>
+    simp only [List.cons_append]
+    unfold scanPath
+    rw [h b (by simp), ih (fun x hx => h x (List.mem_cons_of_mem _ hx))]
+
+theorem scanPath_of_valid {a : Bytes} (h : ∀ b ∈ a, pathClass b = .valid) :
+    scanPath a = some (a, none) := by
+  induction a with
+  | nil => rfl
+  | cons b a ih =>
+    unfold scanPath
+    rw [h b (by simp), ih (fun x hx => h x (List.mem_cons_of_mem _ hx))]
+
+theorem scanPath_invalid {s p : Bytes} {q : Option Bytes} (h : scanPath s = some (p, q)) :
+    ∀ b ∈ p, pathClass b ≠ .invalid := by
+  induction s generalizing p q with
+  | nil => simp [scanPath] at h; intro b hb; rw [h.1] at hb; cases hb
+  | cons x r ih =>
+    unfold scanPath at h
+    cases hc : pathClass x with
+    | query => rw [hc] at h; simp at h; intro b hb; rw [h.1] at hb; cases hb
+    | fragment => rw [hc] at h; simp at h; intro b hb; rw [h.1] at hb; cases hb
+    | invalid => rw [hc] at h; simp at h
+    | valid =>
+      rw [hc] at h
+      cases hr : scanPath r with
+      | none => simp [hr] at h
+      | some pq =>
+        obtain ⟨p', q'⟩ := pq
+        simp [hr] at h
+        intro b hb
+        rw [← h.1] at hb
+        rcases List.mem_cons.mp hb with e | e
+        · rw [e, hc]; simp
+        · exact ih hr b e
+    | high =>
+      rw [hc] at h
+      cases hr : scanPath r with
+      | none => simp [hr] at h
+      | some pq =>
+        obtain ⟨p', q'⟩ := pq
+        simp [hr] at h
+        intro b hb
+        rw [← h.1] at hb
+        rcases List.mem_cons.mp hb with e | e
+        · rw [e, hc]; simp
+        · exact ih hr b e
+
+theorem sanitize_head (u : Bytes) (c : Nat) (hc : c = 47 ∨ c = 63) :
+    (sanitize u).head? = some c ↔ u.head? = some c := by
+  cases u with
+  | nil => simp [sanitize]
+  | cons b r =>
+    unfold sanitize
+    rw [pctEncode_cons]
+    cases hb : shouldEncode urlSet b with
+    | true =>
+      rw [encOne_of_true hb, encByte_eq]
+      simp only [List.cons_append, List.head?_cons, Option.some.injEq]
+      constructor
+      · intro h; omega
+      · intro h
+        subst h
+        rcases hc with e | e <;> subst e <;> revert hb <;> decide
+    | false =>
+      rw [encOne_of_false hb]; simp
+
+theorem sanitize_head_35 (u : Bytes) : (sanitize u).head? ≠ some 35 := by
+  intro h
+  have : 35 ∈ sanitize u := by
+    cases hs : sanitize u with
+    | nil => rw [hs] at h; cases h
+    | cons a r => rw [hs] at h; simp at h; simp [h]
+  exact not_mem_sanitize_35 u this
+
+theorem sanitize_eq_star (u : Bytes) : sanitize u = [42] ↔ u = [42] := by
+  constructor
+  · intro h
+    match u, h with
+    | [b], h =>
+      unfold sanitize at h
+      rw [pctEncode_cons, pctEncode_nil, List.append_nil] at h
+      cases hb : shouldEncode urlSet b with
+      | true => rw [encOne_of_true hb, encByte_eq] at h; simp at h
+      | false => rw [encOne_of_false hb] at h; simpa using h
+    | b :: c :: r, h =>
+      unfold sanitize at h
+      rw [pctEncode_cons, pctEncode_cons] at h
+      have h1 := encOne_ne_nil urlSet b
+      have h2 := encOne_ne_nil urlSet c
+      have := congrArg List.length h
+      simp only [List.length_append, List.length_cons, List.length_nil] at this
+      have l1 : 0 < (encOne urlSet b).length := List.length_pos_iff.mpr h1
+      have l2 : 0 < (encOne urlSet c).length := List.length_pos_iff.mpr h2
+      omega
+  · intro h; subst h; decide
+
+/-- the syntactic description of acceptance. -/
+def AcceptedSyntax (u : Bytes) : Prop :=
+  u ≠ [] ∧ (sanitize u).length ≤ maxLen ∧
+  (u = [42] ∨ u.head? = some 47 ∨ u.head? = some 63) ∧ 96 ∉ (splitFirst 63 u).1
+
+theorem sanitize_split (u : Bytes) :
+    sanitize u = sanitize (splitFirst 63 u).1 ++
+      (match (splitFirst 63 u).2 with | none => [] | some q => 63 :: sanitize q) := by
+  conv => lhs; rw [splitFirst_rebuild 63 u]
+  unfold sanitize
+  rw [pctEncode_append]
+  cases (splitFirst 63 u).2 with
+  | none => rfl
+  | some q => simp only [pctEncode_cons, encOne_of_false shouldEncode_urlSet_63]; rfl
+
+/-- **After sanitising, `PathAndQuery` rejects exactly: the empty URL, a URL longer than 65534
+bytes, a URL that neither is `*` nor starts with `/` or `?`, and a back-quote in the path part.** -/
+theorem accepted_iff (u : Bytes) : (pqParse (sanitize u)).isSome = true ↔ AcceptedSyntax u := by
+  have h63P : 63 ∉ (splitFirst 63 u).1 := not_mem_splitFirst_fst 63 u
+  constructor
+  · intro hacc
+    cases hp : pqParse (sanitize u) with
+    | none => rw [hp] at hacc; cases hacc
+    | some pq =>
+      obtain ⟨p, q⟩ := pq
+      obtain ⟨q', hsp, _⟩ := pqParse_some hp
+      obtain ⟨hp1, _⟩ := pqParse_sanitize hp
+      have hne : u ≠ [] := by
+        intro e; subst e
+        have : pqParse (sanitize []) = none := by decide
+        rw [this] at hp; cases hp
+      have hinv := scanPath_invalid hsp
+      refine ⟨hne, ?_, ?_, ?_⟩
+      · unfold pqParse at hp
+        split at hp
+        · cases hp
+        · split at hp
+          · cases hp
+          · rename_i hl; exact Nat.le_of_not_gt hl
+      · unfold pqParse at hp
+        split at hp
+        · cases hp
+        · split at hp
+          · cases hp
+          · split at hp
+            · rename_i hs
+              exact Or.inl ((sanitize_eq_star u).mp (by simpa using hs))
+            · split at hp
+              · cases hp
+              · rename_i hh
+                simp only [Bool.not_eq_true', Bool.or_eq_false_iff, not_and, Bool.not_eq_false] at hh
+                have hh' : ¬ ((sanitize u).head? == some 47 || (sanitize u).head? == some 63 ||
+                    (sanitize u).head? == some 35) = false := by simpa using hh
+                have : (sanitize u).head? = some 47 ∨ (sanitize u).head? = some 63 ∨
+                    (sanitize u).head? = some 35 := by
+                  cases h1 : ((sanitize u).head? == some 47) <;> cases h2 : ((sanitize u).head? == some 63) <;>
+                    cases h3 : ((sanitize u).head? == some 35) <;> simp [h1, h2, h3] at hh' <;>
+                    simp_all
+                rcases this with h | h | h
+                · exact Or.inr (Or.inl ((sanitize_head u 47 (Or.inl rfl)).mp h))
+                · exact Or.inr (Or.inr ((sanitize_head u 63 (Or.inr rfl)).mp h))
+                · exact absurd h (sanitize_head_35 u)
+      · intro h96
+        have : 96 ∈ p := by
+          rw [hp1]
+          exact (mem_pctEncode (S := urlSet) (c := 96) (by omega)).mpr ⟨h96, shouldEncode_urlSet_96⟩
+        exact hinv 96 this pathClass_96
+  · rintro ⟨hne, hlen, hhead, h96⟩
+    have hvalid : ∀ b ∈ sanitize (splitFirst 63 u).1, pathClass b = .valid :=
+      fun b hb => pathClass_sanitize h63P h96 hb
+    unfold pqParse
+    have e1 : (sanitize u).isEmpty = false := by
+      rw [sanitize, pctEncode_isEmpty]; cases u with
+      | nil => exact absurd rfl hne
+      | cons _ _ => rfl
+    rw [e1]
+    simp only [Bool.false_eq_true, if_false]
+    rw [if_neg (Nat.not_lt.mpr hlen)]
+    by_cases hstar : u = [42]
+    · subst hstar; decide
+    · have hs : ((sanitize u) == [42]) = false := by
+        cases h : ((sanitize u) == [42]) with
+        | false => rfl
+        | true => exact absurd ((sanitize_eq_star u).mp (by simpa using h)) hstar
+      rw [hs]
+      simp only [Bool.false_eq_true, if_false]
+      have hh : (!((sanitize u).head? == some 47 || (sanitize u).head? == some 63 ||
+          (sanitize u).head? == some 35)) = false := by
+        rcases hhead with h | h | h
+        · exact absurd h hstar
+        · rw [(sanitize_head u 47 (Or.inl rfl)).mpr h]; rfl
+        · rw [(sanitize_head u 63 (Or.inr rfl)).mpr h]; rfl
+      rw [hh]
+      simp only [Bool.false_eq_true, if_false]
+      rw [sanitize_split]
+      cases (splitFirst 63 u).2 with
+      | none =>
+        simp only [List.append_nil]
+        rw [scanPath_of_valid hvalid]; rfl
+      | some q =>
+        simp only
+        rw [scanPath_of_valid_query hvalid]
+        simp only [scanQuery_of_valid (fun b hb => queryClass_sanitize (x := q) hb)]
+        rfl
+
 /-! ### small helpers used by Props/C09 -/
 
 theorem splitFirst_url (P Q : Bytes) (hP : 63 ∉ P) : splitFirst 63 (P ++ 63 :: Q) = (P, some Q) := by
